@@ -217,6 +217,7 @@ func c11(c *Ctx) {
 		}
 		okV := constant.Compare(k.Val(), token.EQL, constant.MakeInt64(lim.val))
 		inCtor, inParse := "", ""
+		ctorWrongQty := ""
 		for _, fn := range sortedFuncs(bx.Funcs) {
 			g := (*FG)(nil)
 			inspectNoLit(fn.Body(), func(n ast.Node) bool {
@@ -249,6 +250,16 @@ func c11(c *Ctx) {
 				if !errOnly {
 					return true
 				}
+				// the measured quantity: on the constructor path it must be the length of the value's own serialisation
+				// (len(x.String())), which is what the parser measures on the other side
+				if ctorFns[fn.Name] && lim.name != "maxMembers" {
+					l, _, _, _ := cmpNorm(be, 1)
+					src := expandExpr(info, fn, l, 0)
+					if !(strings.HasPrefix(src, "len(") && strings.HasSuffix(src, ".String())")) {
+						ctorWrongQty = src
+						return true
+					}
+				}
 				if ctorFns[fn.Name] {
 					inCtor = fn.Name
 				}
@@ -261,7 +272,7 @@ func c11(c *Ctx) {
 		c.Check(okV, "R4", "baggage|"+lim.name+"|= "+itoa(int(lim.val)), at(bx.M, bx.Pkg.Syntax[0].Pos()), "W3C limit", "limit constant changed")
 		c.Check(inParse != "", "R4", "baggage|"+lim.name+"|enforced on the parser path", at(bx.M, bx.Pkg.Syntax[0].Pos()), "in "+inParse, "Parse does not enforce "+lim.name)
 		c.Check(inCtor != "", "R4", "baggage|"+lim.name+"|enforced on the constructor path", at(bx.M, bx.Pkg.Syntax[0].Pos()), "in "+inCtor,
-			"New/NewMember* do not enforce "+lim.name+": the constructor accepts a baggage whose own serialisation Parse rejects")
+			"New/NewMember* do not enforce "+lim.name+" on the length of the serialised form (compared quantity: '"+ctorWrongQty+"'): the constructor accepts a baggage whose own serialisation Parse rejects")
 	}
 
 	c.Rule("R5", "E3 ordering/dominance", "Parse: total-size test precedes the split; the member-count test follows the loop and dominates the success return; duplicates resolve by map assignment in input order", 2)
@@ -376,6 +387,39 @@ func c11(c *Ctx) {
 			}
 		}
 		c.Check(good, "R6", "baggage|"+sp.fn+"|"+sp.typ+".value ← replaceInvalidUTF8Sequences(n, PathUnescape(raw))", at(bx.M, fn.Pos()), "parsed values are unescaped and valid UTF-8", "a parsed value can hold invalid UTF-8 or stay percent-encoded: "+why)
+	}
+
+	c.Rule("R8", "E8 fieldcover", "the serializers read every field of what they serialise: Property.String {key, value, hasValue}, Member.String {key, value, properties}, Baggage.String {Value, Properties of every item}", 3)
+	for _, sp := range []struct {
+		fn, typ string
+		pkg     *pkgT
+		fields  []string
+	}{{"Property.String", "Property", bx.Pkg, []string{"key", "value", "hasValue"}}, {"Member.String", "Member", bx.Pkg, []string{"key", "value", "properties"}}, {"Baggage.String", "Item", listT, []string{"Value", "Properties"}}} {
+		fn := c.Fn(bx, "R8", sp.fn)
+		if fn == nil || sp.pkg == nil {
+			continue
+		}
+		read := map[string]bool{}
+		inspectNoLit(fn.Body(), func(n ast.Node) bool {
+			if sel, ok := n.(*ast.SelectorExpr); ok {
+				if fv, _ := fieldOf(info, sel); fv != nil {
+					for _, f := range sp.fields {
+						if lf := lookupField(sp.pkg, sp.typ, f); lf != nil && fv == lf.Origin() {
+							read[f] = true
+						}
+					}
+				}
+			}
+			return true
+		})
+		var missing []string
+		for _, f := range sp.fields {
+			if !read[f] {
+				missing = append(missing, f)
+			}
+		}
+		c.Check(len(missing) == 0, "R8", "baggage|"+sp.fn+"|reads every field of "+sp.typ, at(bx.M, fn.Pos()), strings.Join(sp.fields, ", "),
+			sp.fn+" no longer reads "+strings.Join(missing, ", ")+": two values that differ only there serialise identically (the header does not parse back to the same "+strings.ToLower(sp.typ)+")")
 	}
 
 	c.Rule("R7", "E3", "propagator: Inject sets the header only for a non-empty string; Extract returns the input context on an empty header or parse error", 2)
